@@ -98,8 +98,10 @@ _HASH_OPTIMIZE_PREPARERS = {}
 
 
 def _tuplify(x):
-    """Recursively convert (nested) lists to tuples."""
-    return tuple(_tuplify(y) if isinstance(y, list) else y for y in x)
+    """Recursively convert (nested) lists or tuples to tuples."""
+    return tuple(
+        _tuplify(y) if isinstance(y, (list, tuple)) else y for y in x
+    )
 
 
 def hash_prepare_optimize(optimize):
@@ -108,8 +110,8 @@ def hash_prepare_optimize(optimize):
     try:
         h = _HASH_OPTIMIZE_PREPARERS[cls]
     except KeyError:
-        if isinstance(optimize, list):
-            # n.b. a path can be e.g. a list of lists
+        if isinstance(optimize, (list, tuple)):
+            # n.b. a path can be e.g. a list of lists, or tuple of lists
             h = _HASH_OPTIMIZE_PREPARERS[cls] = _tuplify
         else:
             h = _HASH_OPTIMIZE_PREPARERS[cls] = identity
